@@ -23,6 +23,9 @@ func init() {
 		intrinsics[t+".Unlock"] = lockOp(false)
 		intrinsics[t+".RUnlock"] = lockOp(false)
 	}
+	for _, n := range []string{"sort.Slice", "sort.SliceStable", "slices.SortFunc", "slices.SortStableFunc", "slices.Sort"} {
+		intrinsics[n] = sortSlice
+	}
 	for _, n := range []string{"Add", "Done", "Wait"} {
 		intrinsics["sync.WaitGroup."+n] = noop
 	}
@@ -42,6 +45,41 @@ func init() {
 			}
 		}
 	}
+}
+
+// sortSlice: sort.Slice / sort.SliceStable / slices.SortFunc ... permute the elements of their
+// slice argument in place. Modelled as: the elements in [off, off+len) are replaced by a permutation
+// image of the old ones (every new element is one of the old elements); nothing about the order is
+// assumed, so whatever is proved afterwards holds for every comparison function.
+func sortSlice(x *Exec, s *State, e *ast.CallExpr, c callee) (Val, bool) {
+	at := x.typeOf(e.Args[0])
+	st, ok := under(at).(*types.Slice)
+	if !ok {
+		return Val{}, false
+	}
+	v := x.eval(s, e.Args[0])
+	// the comparison closure is not executed (assumed effect-free)
+	x.eng.note("sort functions permute their slice argument; the comparison function is assumed effect-free and is not executed")
+	x.checkRO(s, v.Ref, e.Pos())
+	et := st.Elem()
+	key := typeKey(et)
+	x.eng.ctr++
+	perm := "perm!" + itoa(x.eng.ctr)
+	x.eng.dynUF[perm] = &UFDecl{Name: perm, Args: []string{sInt}, Ret: sInt}
+	for _, l := range leavesOf(et) {
+		name := "M$" + key + "$" + l.path
+		srt := arrSort(arrSort(l.sort))
+		cur := s.heapGet(name, srt)
+		old := mkSel(cur, v.Ref)
+		na := x.eng.fresh("sorted", arrSort(l.sort))
+		x.eng.innerTypingAxiom(na, l.typ)
+		j := "j!s"
+		lo, hi := v.Off, mkAdd(v.Off, v.Len)
+		s.assume(sf("(forall ((%s Int)) (! (ite (and (<= %s %s) (< %s %s)) (and (<= %s (%s %s)) (< (%s %s) %s) (= (select %s %s) (select %s (%s %s)))) (= (select %s %s) (select %s %s))) :pattern ((select %s %s))))",
+			j, lo, j, j, hi, lo, perm, j, perm, j, hi, na, j, old, perm, j, na, j, old, j, na, j))
+		s.heapSet(name, srt, mkSto(cur, v.Ref, na), v.Ref)
+	}
+	return Val{K: KTuple}, true
 }
 
 func noop(x *Exec, s *State, e *ast.CallExpr, c callee) (Val, bool) {
